@@ -134,6 +134,9 @@ func driveXIBC(t *testing.T, in, out string, seed int64) {
 			case "Rotate":
 				res, msg := w.Rotate(on, str(st["counter"]))
 				line["res"], line["msg"], line["sig"] = res, clip(msg), "Rotate"
+			case "NewClient":
+				res, msg := w.NewClient(on, str(st["counter"]), str(st["name"]))
+				line["res"], line["msg"], line["sig"] = res, clip(msg), "NewClient/"+str(st["name"])
 			case "Retoggle":
 				res, msg := w.Retoggle(on, str(st["counter"]))
 				line["res"], line["msg"], line["sig"] = res, clip(msg), "Retoggle"
